@@ -370,7 +370,18 @@ def _run(prop, mod, tier, seed, work, t0, replay_file) -> int:
         the harness does not expect one (the unchanged code never does that: the harness observes every expected raise
         itself) ends the stream and is reported as a finding on the call that raised, not as a machinery error"""
         it = mod.cases(rng, tier)
+        # every fourth case is computed with the library's trace logging switched ON (`pyoak.config.TRACE_LOGGING`: a
+        # behaviour-neutral diagnostics flag; debug lines must not consume iterators, reorder work or change results).
+        # The flag is a pure function of the case index, so a replay by index sees the same setting.
+        try:
+            import pyoak.config as _cfg
+        except Exception:  # noqa
+            _cfg = None
+        k = 0
         while True:
+            if _cfg is not None and hasattr(_cfg, "TRACE_LOGGING") and getattr(mod, "TRACE_VARIATION", True):
+                _cfg.TRACE_LOGGING = (k % 4 == 3)
+            k += 1
             try:
                 yield next(it)
             except StopIteration:
